@@ -2079,6 +2079,16 @@ async def c05_holds(w):
             "expected": {"runs": want}}
 
 
+async def c05_wait_holds(w):
+    """Failing input for a refuted step obligation of task.wait_until's hold logic: grid search (<= 3 events) on the real
+    subsystem for a timed history whose return disagrees with the first run of the statement's automaton."""
+    out = await c05_wait_until_bounded({"subsystem": w.get("subsystem", "legacy"), "depth": 3})
+    f = out["failures"][:1]
+    return {"reproduced": bool(f), "observed": f[0] if f else {"searched": out["bound"], "cases": out["cases"]},
+            "expected": "task.wait_until returns at the first run of the statement's automaton, with its arguments",
+            "found_by": "grid search around the failed step obligation"}
+
+
 def c05_grid(depth):
     import itertools
     cfgs = [{"S": S, "H": H, "check_now": c} for S in (None, 0, 4.0) for H in (None, 0, 4.0) for c in (None, False, True)]
